@@ -97,17 +97,31 @@ class WrapperSem:
         self.consts = consts
         self.cache = {}
 
-    def sem(self, name):
-        if name in self.cache:
-            return self.cache[name]
+    def sem(self, name, fnargs=None):
+        """fnargs: {parameter index: foreign function path} for parameters that receive a library function (a generic helper applying `op`)"""
+        ck = (name, tuple(sorted((fnargs or {}).items())))
+        if ck in self.cache:
+            return self.cache[ck]
         h = self.F.hir.get(name)
         if h is None:
             return None
+        self.cache[ck] = {"result": set(), "prims": []}      # recursion guard
         env = {}
         for i, p in enumerate(h["params"]):
             if p.get("k") == "Bind":
-                env[p["name"]] = {("param", i)}
+                env[p["name"]] = {("fn", fnargs[i])} if fnargs and i in fnargs else {("param", i)}
         prims = []
+
+        def foreign_of(e):
+            """the library function a callee expression denotes: a foreign fn item, or a parameter bound to one"""
+            e = strip(e)
+            if e.get("k") == "Path" and e.get("res") == "def" and e.get("path") in self.F.foreign:
+                return e["path"]
+            if e.get("k") == "Path" and e.get("res") == "local":
+                v = env.get(e["name"], set())
+                if len(v) == 1 and list(v)[0][0] == "fn":
+                    return list(v)[0][1]
+            return None
 
         def val(e):
             e = strip(e)
@@ -125,9 +139,15 @@ class WrapperSem:
                 if e.get("method") in ("clone", "as_ptr", "as_mut_ptr", "deref"):
                     return val(e["recv"])
                 return {("expr", e.get("method"))}
-            if e.get("k") == "Call" and (e.get("callee") or "").startswith(DEC + "dec_"):
-                w = self.sem(e["callee"])
+            if e.get("k") == "Call" and (e.get("callee") or "").startswith(DEC) and e.get("callee") in self.F.hir and e["callee"] != name:
+                fa = {i: foreign_of(a) for i, a in enumerate(e.get("args", [])) if foreign_of(a)}
+                w = self.sem(e["callee"], fa)
                 argv = [val(a) for a in e.get("args", [])]
+                if w:
+                    for pn in w["prims"]:
+                        for x in subst_wrapper({"result": {pn}}, argv):
+                            if x not in prims:
+                                prims.append(x)
                 return subst_wrapper(w, argv) if w else {("unknown", e["callee"])}
             return {("expr", e.get("k"))}
 
@@ -149,6 +169,9 @@ class WrapperSem:
             if n.get("k") == "Call" and n.get("callee") in self.F.foreign:
                 self.apply(n, val, env, prims)
                 return False
+            if n.get("k") == "Call" and n.get("callee") is None and "f" in n and foreign_of(n["f"]):
+                self.apply(dict(n, callee=foreign_of(n["f"])), val, env, prims)      # `op(&mut r, a, b, ctx)` with op bound to a library function
+                return False
             return True
         from facts import walk_hir
         walk_hir(h["body"], visit)
@@ -169,8 +192,10 @@ class WrapperSem:
         elif t.get("k") == "Block":
             for c, _ in find_hir(t, lambda x: x.get("k") == "Call" and x.get("callee") in self.F.foreign):
                 res = {self.apply(c, val, env, prims)}
+        elif t.get("k") == "Call":
+            res = val(t)                   # a wrapper that only delegates: `quad_binary(decQuadAdd, q1, q2)`
         out = {"result": res, "prims": prims}
-        self.cache[name] = out
+        self.cache[ck] = out
         return out
 
     def apply(self, call, val, env, prims):
@@ -400,6 +425,12 @@ def run(F, rep, tier):
         B = mirutil.Body(F, b)
         for bi, c in F.body_calls(b):
             ff = F.foreign.get(c["f"].get("p"))
+            if ff is None and c["f"].get("k") == "fnptr" and c["f"].get("ty") is not None:
+                # a library function applied through a typed `extern "C" fn` pointer (a generic helper taking the operation as a parameter)
+                pty = F.ty(b, c["f"]["ty"])
+                m = re.match(r'^(?:for<[^>]*>\s*)?(?:unsafe\s+)?extern "C" fn\((.*)\)(?:\s*->.*)?$', pty)
+                if m:
+                    ff = {"sym": "(library function passed as a parameter)", "inputs": [x.strip() for x in m.group(1).split(",")]}
             if ff is None or "inputs" not in ff:
                 continue
             for i, (ty, arg) in enumerate(zip(ff["inputs"], c["args"])):
@@ -445,7 +476,8 @@ def run(F, rep, tier):
                     base = B.local_ty(st[1][0])
                     if "DecContext" in base and any(isinstance(e, list) and e[0] == "." for e in st[1][1:]):
                         rep.violation(r3, "write:%s" % n, "%s writes a field of a DecContext (rounding/precision can be changed behind the library's back)" % n, "%s:%s" % (b["file"], st[3] if len(st) > 3 else b["line"]))
-    rep.floor(r3, "FFI context arguments", nctx, 30)
+    # 30 on the pinned tree; the floor leaves room for wrappers being folded into generic helpers (each helper's call through the pointer is counted once)
+    rep.floor(r3, "FFI context arguments", nctx, 18)
     init_fn = [n for n in F.hir if n.startswith("<dmntk_feel_number::dec::DEFAULT_CONTEXT as ") and n.endswith("__static_ref_initialize")]
     if not init_fn:
         rep.missing_anchor(r3, "initialiser of DEFAULT_CONTEXT")
@@ -534,7 +566,13 @@ def run(F, rep, tier):
     for n, h in sorted(sinks.items()):
         if n not in seen:
             continue
-        fl = hirflow.Flow(h)
+        # private helpers of number.rs (a shared "finite -> Some(reduced)" function) are expanded at their call sites
+        def helper(callee):
+            f2 = F.fns.get(callee or "")
+            if f2 is None or not callee.startswith("dmntk_feel_number::number::") or f2.get("vis") == "pub" or callee == n:
+                return None
+            return F.hir.get(callee)
+        fl = hirflow.Flow(h, inline=helper)
         vs = method_value(F, W, h, inline=False)
         srcs = sorted({p[1] for p in prims_in(vs) if p[1] in NON_FINITE_SOURCES})
         if not srcs:
